@@ -237,6 +237,8 @@ def strip(t, casts=True, calls=True, clones=False):
             t = t[1]
         elif t[0] == "cast" and casts and ("Pointer" in t[1] or "Unsize" in t[1] or t[1].startswith("PtrToPtr") or "Transmute" in t[1]):
             t = t[2]
+        elif t[0] == "field" and t[2] == "pointer" and t[1][0] == "field" and t[1][2] == "0":
+            t = t[1][1]     # Box<T> internals: (*box) is (*(box.0.pointer))
         elif t[0] == "call" and calls and is_transparent_call(t[1]) and len(t[2]) >= 1:
             t = t[2][0]
         elif t[0] == "call" and clones and t[1].endswith("::clone::Clone>::clone") and len(t[2]) == 1:
